@@ -133,6 +133,19 @@ def classify(gi, m, prev, obs, exc):
         okc, _ = expected_ok(prev.conj(), m, obs)
         if okc:
             return "D18:function-of-conjugate-across-branch-cut"
+    if m[0] == "power" and not frac(m) and m[1] < 0 and obs is not None:
+        # D32: Power.matrix hands a NEGATIVE integer exponent to sympy's symbolic inverse; over a gate that contains a fractional Power the entries are unevaluated float powers of
+        # +-I, a pivot that is really 0 is not recognised and the "inverse" comes back singular. Signature: the wrapped chain contains a fractional Power, the matrix being inverted
+        # has an (exactly) zero diagonal entry, and the observed matrix is singular although the true inverse exists.
+        def has_frac(g):
+            while hasattr(g, "wrapped_gate"):
+                if isinstance(g, _gates.Power) and abs(g.exponent - round(g.exponent)) > 1e-12:
+                    return True
+                g = g.wrapped_gate
+            return False
+        base_pow = np.linalg.matrix_power(prev, -m[1])
+        if has_frac(gi) and np.min(np.abs(np.diag(prev))) < 1e-9 and abs(np.linalg.det(obs)) < 1e-6 and abs(np.linalg.det(base_pow)) > 0.5:
+            return "D32:symbolic-inverse-misses-zero-pivot"
     return "step:" + m[0] + (":frac" if frac(m) else "")
 
 
@@ -173,7 +186,7 @@ def chain_case(case):
         if not ok:
             r = {"ok": False, "msg": "step %d %s of chain %s over %s: matrix is not the %s" % (i, m, case["chain"], case["base"], what), "sig": classify(gi, m, M, obs, None),
                  "expected": what, "observed": str(np.round(obs, 4).tolist())[:400], "ops": k}
-            if not r["sig"].startswith(("D15:", "D18:")):
+            if not r["sig"].startswith(("D15:", "D18:", "D32:")):
                 return r
             # a listed root cause: remember it, and keep judging the later steps against what this step returned (the oracle is step-wise),
             # so that a different defect further down the chain is not hidden behind the known one
@@ -258,7 +271,11 @@ def run(run):
     else:
         tp = [{"base": G("ISWAP"), "chain": [["power", "1/3"], ["power", "1/2"]]}, {"base": G("X"), "chain": [["exp"], ["power", "1/2"]]}, {"base": G("X"), "chain": [["exp"], ["exp"]]},
               {"base": G("CNOT"), "chain": [["exp"], ["exp"]]}, {"base": G("SWAP"), "chain": [["exp"], ["power", "1/2"]]}, {"base": G("T"), "chain": [["exp"]]},
-              {"base": G("Z"), "chain": [["power", "1/2"], ["power", "1/2"]]}, {"base": G("S"), "chain": [["power", "1/2"], ["exp"]]}]
+              {"base": G("Z"), "chain": [["power", "1/2"], ["power", "1/2"]]}, {"base": G("S"), "chain": [["power", "1/2"], ["exp"]]},
+              # representatives of D32 (a negative integer power over a root, zero pivot) and their healthy neighbours
+              {"base": G("ISWAP"), "chain": [["power", "1/2"], ["power", 2], ["power", -1]], "maxq": 4}, {"base": G("ISWAP"), "chain": [["power", "1/3"], ["power", 3], ["power", -1]], "maxq": 4},
+              {"base": G("SWAP"), "chain": [["power", "1/2"], ["power", 2], ["power", -1]], "maxq": 4}, {"base": G("X"), "chain": [["power", "1/2"], ["power", 2], ["power", -1]], "maxq": 4},
+              {"base": G("ISWAP"), "chain": [["power", "1/2"], ["power", -1]], "maxq": 4}, {"base": G("ISWAP"), "chain": [["power", "1/2"], ["power", 2], ["power", -2]], "maxq": 4}]
     # at most one power modifier per chain here: integer powers of powers of exact expressions only blow up sympy's inversion (U3(0.3,0.3,pi/3).power(3).power(-1) > 300 s)
     ecases = [{"base": b, "chain": c, "maxq": 4} for b in EXACT_BASES for c in chains(2, max_trans=0) if sum(1 for m in c if m[0] == "power") <= 1]
     secs.append(Section("exact_parameters", ecases, chain_case, horizon=300, chunk=8, desc="all algebraic modifier chains (at most one power) of depth <= 2 over %d bases with exact sympy parameters (pi/3, ...) / root-of-unity entries" % len(EXACT_BASES)))
